@@ -363,4 +363,199 @@ theorem close_inv (s : State) (c : Bool) (hi : Inv s) : Inv (close s c).st := by
   · rw [heq]
     exact ⟨hi.diskOk, by intro h; simp [hasWritable_closedHandle] at h⟩
 
+
+/-! ### open -/
+theorem createRec_notrunc_touch (s : State) (c : Bool) (n : Name) (o : List Name) :
+    ∀ f ∈ (createRec s c n false o).W, Touchable s.disk f := by
+  rcases createRec_notrunc s c n o with hf | ⟨_, _, hfresh, heq⟩
+  · exact touch_of_failed hf
+  · rw [heq]
+    intro f hf
+    simp only [Res.W, List.append_nil, List.mem_cons, List.not_mem_nil, or_false] at hf
+    subst hf
+    exact Or.inl ⟨hfresh, baseFile_last _⟩
+
+theorem createRec_notrunc_inv (s : State) (c : Bool) (n : Name) (o : List Name) (hi : Inv s) :
+    Inv (createRec s c n false o).st := by
+  rcases createRec_notrunc s c n o with hf | ⟨_, _, hfresh, heq⟩
+  · exact inv_of_failed hi hf
+  · rw [heq]
+    constructor
+    · intro f ub p hg
+      simp only at hg
+      by_cases h : f = baseFile n
+      · subst h; exact baseFile_last _
+      · rw [getF_setF_ne _ _ _ _ h] at hg; exact hi.diskOk f ub p hg
+    · intro _
+      exact ⟨_, _, rfl, _, _, getF_setF_eq _ _ _, rfl⟩
+
+theorem openExisting_touch (s : State) (c : Bool) (paths : List Name) (m : Mode) :
+    ∀ f ∈ (openExisting s c paths m).W, Touchable s.disk f := by
+  rcases openExisting_spec s c paths m with hf | ⟨files, b, man, hopen, _, ⟨_, heq⟩ | ⟨_, _, heq⟩⟩
+  · exact touch_of_failed hf
+  · rw [heq]
+    intro g hg
+    simp only [Res.W, List.append_nil, List.nil_append] at hg
+    obtain ⟨_, _, fl, ul, hl, hb⟩ := openFiles_ok hopen
+    by_cases hbb : b
+    · simp only [hbb, if_true, hl, List.mem_cons, List.not_mem_nil, or_false] at hg
+      subst hg
+      obtain ⟨p, hp⟩ := openFiles_mem hopen g ul (lastFile_mem _ _ hl)
+      have : ul.hash = none := by
+        rw [hbb] at hb
+        have := hb.symm
+        simp only [Bool.and_eq_true, Option.isNone_iff_eq_none] at this
+        exact this.2
+      exact Or.inr (Or.inl ⟨ul, p, hp, this⟩)
+    · simp [hbb] at hg
+  · rw [heq]
+    exact createPatch_touch { s with h := openedHandle files b c m man }
+
+theorem openExisting_inv (s : State) (c : Bool) (paths : List Name) (m : Mode) (hi : Inv s) :
+    Inv (openExisting s c paths m).st := by
+  rcases openExisting_spec s c paths m with hf | ⟨files, b, man, hopen, _, ⟨_, heq⟩ | ⟨hw, _, heq⟩⟩
+  · exact inv_of_failed hi hf
+  · rw [heq]
+    refine ⟨hi.diskOk, ?_⟩
+    intro hw
+    simp only [hasWritable, openedHandle, Bool.and_eq_true] at hw
+    obtain ⟨_, _, fl, ul, hl, hb⟩ := openFiles_ok hopen
+    obtain ⟨p, hp⟩ := openFiles_mem hopen fl ul (lastFile_mem _ _ hl)
+    refine ⟨fl, ul, hl, ul, p, hp, ?_⟩
+    rw [hw.2] at hb
+    have := hb.symm
+    simp only [Bool.and_eq_true, Option.isNone_iff_eq_none] at this
+    exact this.2
+  · rw [heq]
+    apply createPatch_inv
+    refine ⟨hi.diskOk, ?_⟩
+    intro h
+    simp only [Bool.and_eq_true, Bool.not_eq_eq_eq_not, Bool.not_true] at hw
+    rw [hw.2] at h; cases h
+
+theorem openRec_touch (s : State) (c : Bool) (t : Target) (m : Mode) (hsafe : (Op.openRec c t m).safe = true) :
+    ∀ f ∈ (openRec s c t m).W, Touchable s.disk f := by
+  unfold openRec
+  split
+  · exact touch_of_failed (failed_fail rfl rfl (by decide))
+  · cases t with
+    | list fs =>
+      simp only
+      split
+      · exact touch_of_failed (failed_fail rfl rfl (by decide))
+      · split
+        · exact touch_of_failed (failed_fail rfl rfl (by decide))
+        · exact openExisting_touch _ _ _ _
+    | name n =>
+      cases m with
+      | w => simp [Op.safe] at hsafe
+      | wm => exact createRec_notrunc_touch _ _ _ _
+      | x => exact createRec_notrunc_touch _ _ _ _
+      | r =>
+        simp only
+        split
+        · exact touch_of_failed (failed_fail rfl rfl (by decide))
+        · exact touch_of_failed (failed_fail rfl rfl (by decide))
+        · exact openExisting_touch _ _ _ _
+      | rp =>
+        simp only
+        split
+        · exact touch_of_failed (failed_fail rfl rfl (by decide))
+        · exact touch_of_failed (failed_fail rfl rfl (by decide))
+        · exact openExisting_touch _ _ _ _
+      | a =>
+        simp only
+        split
+        · exact touch_of_failed (failed_fail rfl rfl (by decide))
+        · exact createRec_notrunc_touch _ _ _ _
+        · exact openExisting_touch _ _ _ _
+
+theorem openRec_inv (s : State) (c : Bool) (t : Target) (m : Mode) (hsafe : (Op.openRec c t m).safe = true)
+    (hi : Inv s) : Inv (openRec s c t m).st := by
+  unfold openRec
+  split
+  · exact hi
+  · cases t with
+    | list fs =>
+      simp only
+      split
+      · exact hi
+      · split
+        · exact hi
+        · exact openExisting_inv _ _ _ _ hi
+    | name n =>
+      cases m with
+      | w => simp [Op.safe] at hsafe
+      | wm => exact createRec_notrunc_inv _ _ _ _ hi
+      | x => exact createRec_notrunc_inv _ _ _ _ hi
+      | r =>
+        simp only
+        split
+        · exact hi
+        · exact hi
+        · exact openExisting_inv _ _ _ _ hi
+      | rp =>
+        simp only
+        split
+        · exact hi
+        · exact hi
+        · exact openExisting_inv _ _ _ _ hi
+      | a =>
+        simp only
+        split
+        · exact hi
+        · exact createRec_notrunc_inv _ _ _ _ hi
+        · exact openExisting_inv _ _ _ _ hi
+
+/-! ### merge -/
+theorem mergeFiles_touch (s : State) (t : Name) : ∀ f ∈ (mergeFiles s t).W, Touchable s.disk f := by
+  rcases mergeFiles_spec s t with hf | ⟨_, _, _, hfresh, _, _, _, hW, _, _, _, _⟩
+  · exact touch_of_failed hf
+  · intro g hg
+    rcases hW g hg with rfl | rfl
+    · exact Or.inl ⟨hfresh, baseFile_last _⟩
+    · exact Or.inr (Or.inr ⟨_, rfl, Or.inl ⟨hfresh, baseFile_last _⟩⟩)
+
+theorem mergeFiles_inv (s : State) (t : Name) (hi : Inv s) : Inv (mergeFiles s t).st := by
+  rcases mergeFiles_spec s t with hf | ⟨_, hnw, _, hfresh, _, hh, _, _, hfr, _, hside, _⟩
+  · exact inv_of_failed hi hf
+  · constructor
+    · intro g ub p hg
+      by_cases h1 : g = baseFile t
+      · subst h1; exact baseFile_last _
+      · by_cases h2 : g = manifestFile (baseFile t)
+        · subst h2
+          rcases hside with h | ⟨_, a, b, h⟩
+          · rw [h] at hg; exact hi.diskOk _ ub p hg
+          · rw [h] at hg; cases hg
+        · rw [hfr g h1 h2] at hg; exact hi.diskOk g ub p hg
+    · intro h
+      rw [hh, hnw] at h; cases h
+
+/-! ### every safe call -/
+theorem step_touch (s : State) (op : Op) (hsafe : op.safe = true) (hi : Inv s) :
+    ∀ f ∈ (step s op).W, Touchable s.disk f := by
+  cases op with
+  | openRec c t m => exact openRec_touch s c t m hsafe
+  | write k => exact write_touch s k hi
+  | read => simp only [step, (read_state s).2]; intro f hf; cases hf
+  | createPatch => exact createPatch_touch s
+  | commitPatch => exact commitPatch_touch s hi
+  | discardPatch => exact discardPatch_touch s hi
+  | close c => exact close_touch s c hi
+  | merge t => exact mergeFiles_touch s t
+  | deleteFiles n => simp [Op.safe] at hsafe
+
+theorem step_inv (s : State) (op : Op) (hsafe : op.safe = true) (hi : Inv s) : Inv (step s op).st := by
+  cases op with
+  | openRec c t m => exact openRec_inv s c t m hsafe hi
+  | write k => exact write_inv s k hi
+  | read => simp only [step, (read_state s).1]; exact hi
+  | createPatch => exact createPatch_inv s hi
+  | commitPatch => exact commitPatch_inv s hi
+  | discardPatch => exact discardPatch_inv s hi
+  | close c => exact close_inv s c hi
+  | merge t => exact mergeFiles_inv s t hi
+  | deleteFiles n => simp [Op.safe] at hsafe
+
 end MetadorModel.Record
